@@ -508,7 +508,7 @@ def c01():
     obs += page_obs("C01", [E_MALLOC, E_FREE, E_COLLECT, E_EXTEND], sizes=((1024, 3),), flavours=("release", "secure"), tier="extended")
     obs += page_obs("C01", [E_FREE, E_COLLECT, E_EXTEND], sizes=((16, 6), (80, 4)), flavours=("secure",), tier="extended")
     obs += queue_obs("C01")
-    obs += span_obs("C01") + page_free_full_obs("C01")
+    obs += span_obs("C01") + page_free_full_obs("C01") + find_free_obs("C01")
     obs += segment_alloc_full_obs("C01", flavours=("release",)) + segment_alloc_full_obs("C01", flavours=("secure",), tier="thorough")
     for b in (1, 2, 13, 33, 48):
         obs.append(O("C01.page_start.bin%02d" % b, "c16_arith.c", "h_page_start", defines=["BIN=%d" % b], funcs=["_mi_segment_page_start_from_slice"], cost=30,
@@ -748,6 +748,14 @@ def heap_destroy_obs(prefix):
              bounds="3+2 pages of two heaps with disjoint areas, any address inside one of them")]
 
 
+def find_free_obs(prefix, psts=tuple(range(27))):
+    return [q_ob(prefix + ".find_free.s%02d%s" % (pst, "" if fr else ".nofresh"), "h_find_free", defines=["AFULL=0", "BHAS=0", "PST=%d" % pst, "FRESH_OK=%d" % fr], cost=10, std_checks=False, unwind=10,
+                unwindset=["mi_heap_queue_first_update.1:140", "mi_heap_queue_first_update.0:6", "_mi_memcpy_aligned.0:4"],
+                replace={"mi_page_extend_free": "stub_extend_free", "mi_page_fresh": "stub_page_fresh", "_mi_heap_collect_retired": "stub_collect_retired"},
+                funcs=["mi_find_free_page", "mi_page_queue_find_free_ex", "mi_page_to_full", "mi_page_queue_move_to_front", "mi_page_queue_enqueue_from_ex", "_mi_page_free_collect", "mi_heap_queue_first_update"],
+                bounds="size queue of 3 pages (64-byte class), page states (base 3: 0 full, 1 free block, 2 extendable) = %d; fresh page %s" % (pst, "granted" if fr else "refused")) for pst in psts for fr in ((1, 0) if pst == 0 else (1,))]
+
+
 def heap_by_tag_ob(prefix):
     return q_ob(prefix + ".heap_by_tag", "h_heap_by_tag", cost=5, funcs=["_mi_heap_by_tag"], bounds="3 heaps of a thread with symbolic tags / no_reclaim flags (backing heap last), any starting heap and tag")
 
@@ -837,7 +845,7 @@ E_FREE_DELAYED = ("h_free_delayed", ["_mi_free_delayed_block", "_mi_page_try_use
 
 
 def c08():
-    return lists_obs("C08") + page_obs("C08", [E_COLLECT, E_FREE_DELAYED], sizes=((32, 5),), flavours=("release",)) + queue_obs("C08") + [segment_reclaim_ob("C08")]
+    return lists_obs("C08") + page_obs("C08", [E_COLLECT, E_FREE_DELAYED], sizes=((32, 5),), flavours=("release",)) + queue_obs("C08") + [segment_reclaim_ob("C08")] + find_free_obs("C08", psts=(0, 2, 5, 6, 8, 18, 20, 24, 26))
 
 
 PROPS["C08"] = dict(
